@@ -251,6 +251,24 @@ def decide(prop, tier='quick', seed=0, units=None, jobs=8, quiet=False):
         rc = 2
         for u in undecided:
             lines.append('UNDECIDED property=%s %s' % (prop, u))
+    # bounded stand-in (C11 only; labelled bounded, never counted among the discharged obligations): the file-name codec on the real code
+    bounded = {}
+    if prop == 'C11' and not os.environ.get('VERIF_NO_BOUNDED'):
+        from . import kani as KB
+        b = KB.run_bounded_file_name_codec()
+        bounded['bounded_stand_ins'] = [{k: v for k, v in b.items() if k != 'test'}]
+        if b['status'] == 'failed':
+            oid = 'C11.bounded.file_name_codec'
+            path = os.path.join(REPLAY_DIR, prop, safe(oid) + '.json')
+            json.dump(dict(property=prop, obligation=oid, function='Config::chunk_file_name / Config::parse_chunk_file_name', kind='bounded-check',
+                           clause=b['output'], verifier_message='bounded stand-in failed on the real code (not a Verus obligation)', verifier_output=[b['output']],
+                           failing_input=dict(values=b['output'], test=b.get('test')), note='replay: the stored test, injected into a scratch copy of /repo, prints the failing offset/name'),
+                      open(path, 'w'), indent=1)
+            lines.insert(0, 'VIOLATION property=%s replay=%s' % (prop, path))
+            seen.add(oid)
+            rc = 1
+        elif b['status'] == 'not-run':
+            lines.append('NOTE property=%s bounded stand-in for the file-name codec did not run (verdict unaffected): %s' % (prop, b['output'][-200:].replace(chr(10), ' ')))
     thorough = {}
     if tier == 'thorough':
         # (a) proof stability: the same units under two more Z3 seeds
@@ -311,6 +329,7 @@ def decide(prop, tier='quick', seed=0, units=None, jobs=8, quiet=False):
             vacuity_guard=dict(rule='for every function under contract with preconditions, a twin with the same signature and preconditions and body `assert(false)` must FAIL to verify', twins_checked=reach_checked, vacuous=reach_vacuous),
             samples=samples or [dict(note='no tagged ensures clause; see functions_under_contract')],
             exhaustive=False,
+            **bounded,
             **thorough,
         ),
         assumptions=assumptions + [k['what'] for k in []],
